@@ -189,4 +189,26 @@ var plans = map[string]*plan{
 		FloorsThorough: map[string]int64{"c02.scripts": 300000, "classes": 100000},
 		Assumptions:    []string{"quiescence by synctest.Wait()", "the client role of the property is checked by the scripted-peer workload (TestC02Client) where built"},
 	},
+	"C12": {
+		Level: "exploration",
+		Rule: "client API vs scripted TCP peer on 127.0.0.1: batches of 4..15 Publish(QoS 0/1/2)/Subscribe/Unsubscribe/Ping calls with completion callbacks stamped from one global counter; the peer stamps every ack before writing it and acknowledges in orders {FIFO, reversed, random, delayed, PUBCOMP long after PUBREC, random with duplicated acks and acks for unused ids}; a peer PINGREQ->PINGRESP round trip is the barrier. Oracle: every callback fires exactly once, not before its terminal ack was sent, and has fired at the barrier once its ack and those of all earlier requests of the same kind were sent; QoS 0 completes before Publish returns; #PUBREL(id) = #PUBREC(id); in-flight identifiers non-zero and distinct. " +
+			"In every third script the yield hook parks the sending call between write and registration, the peer's ack is sent and the processor's proc.handled event awaited before the call is released (the 'ack processed before registered' schedule, forced). Broker-to-subscriber (synctest): 2..4 publishers reuse identifiers 1,2 at QoS 1/2 towards a subscriber that withholds acks; unacknowledged inbound PUBLISH identifiers must be non-zero and pairwise distinct, PUBREC answered by PUBREL with the same id. distinct = (ack order, forced, request kinds, batch size) and b2s configurations.",
+		Quick:          []batchSpec{{Test: "TestC12Client", N: 8, Timeout: 15 * m}, {Test: "TestC12Broker", N: 4, Timeout: 10 * m}},
+		Thorough:       []batchSpec{{Test: "TestC12Client", N: 16, Timeout: 60 * m}, {Test: "TestC12Broker", N: 8, Timeout: 30 * m}, {Test: "TestC12Client", N: 8, Race: true, Timeout: 60 * m}},
+		EvalStats:      []string{"c12.scripts", "c12.b2s_scenarios"},
+		Floors:         map[string]int64{"c12.scripts": 340, "c12.forced_interleavings": 100, "c12.requests": 2500, "c12.b2s_scenarios": 190, "c12.b2s_inflight_checked": 300, "classes": 60},
+		FloorsThorough: map[string]int64{"c12.scripts": 7000, "c12.forced_interleavings": 2000, "classes": 100},
+		Assumptions:    []string{"the client's processor handles inbound packets sequentially, so a PINGREQ/PINGRESP round trip is a barrier", "the forced interleaving parks a goroutine that holds no library lock (legal schedule)"},
+	},
+	"C20": {
+		Level: "exploration",
+		Rule: "Client.Connect against a scripted TCP peer answering 27 CONNACK variants (codes 0..5 x SessionPresent, codes 6/255, reserved bits, wrong fixed-header flags, remaining length 0/1/3, cut packets, other packet types, garbage incl. an unterminated length, close without answer, silence until the 1 s connect timeout): result must be nil iff code 0, the ConnackCode for 1..5, an error otherwise; no panic; socket closed; no goroutine with a library frame left. " +
+			"Dispatch: sessions of 10..35 steps of Subscribe (1..3 filters, own callback per request, some filters refused with 0x80), Unsubscribe, inbound PUBLISH at QoS 0..2 on 10 topics incl. never-subscribed ones, QoS 2 with DUP repeats and repeated PUBREL; after a PINGREQ/PINGRESP barrier each request's callback must have been invoked exactly once per delivered message matching one of its active filters and never otherwise; Disconnect leaves no library goroutine. distinct = connect answers + (topic shape, QoS, number of requests).",
+		Quick:          []batchSpec{{Test: "TestC20", N: 8, Timeout: 15 * m}},
+		Thorough:       []batchSpec{{Test: "TestC20", N: 16, Timeout: 60 * m}},
+		EvalStats:      []string{"c20.connect_cases", "c20.inbound"},
+		Floors:         map[string]int64{"c20.connect_cases": 27, "c20.sessions": 230, "c20.inbound": 2000, "c20.callbacks_checked": 1000, "classes": 100},
+		FloorsThorough: map[string]int64{"c20.connect_cases": 27, "c20.sessions": 5500, "classes": 150},
+		Assumptions:    []string{"PINGREQ/PINGRESP barrier as in C12", "filters with empty levels are not generated here (known finding F-C06-1 covers the matcher)"},
+	},
 }
